@@ -34,6 +34,8 @@ def check(case, ctx):
     tag = g.crystal_system
     kinds = sorted({m["kind"] for m in M.model})
     obl = any(abs(x - 90.0) > 1e-9 and abs(x - 120.0) > 1e-9 for x in M.cell[3:6])
+    ctx._sample_view = {"group": "%s (Sg%d, %s)" % (M.name, g.no, g.choice), "cell": M.cell, "dispersion": M.disper,
+                        "atoms": [(m["el"], [str(x) for x in m["posf"]], m["kind"], m["occ"], m["mult"]) for m in M.model], "hkl": case["hkl"]}
     ctx.nontrivial(M.any_special or M.any_fpp or obl)
     for k in kinds:
         ctx.event("adp:" + k)
